@@ -111,6 +111,19 @@ func c04Base(variant int) gen.S {
 	// schemas without any validation keyword (annotations only) at several positions
 	dig(doc, "components", "schemas")["Anything"] = gen.S{"description": "anything goes", "externalDocs": gen.S{"url": "https://docs.example.com/any"}}
 	dig(doc, "components", "schemas", "Pet", "properties")["extra"] = gen.S{"description": "free"}
+	if variant == 2 {
+		// servers at every level (a variable used twice in one URL), examples given by externalValue next to a schema, a header
+		// with an example, a media type without schema carrying an example, an operationId inside a callback
+		doc["servers"] = gen.Arr(gen.S{"url": "https://{env}.example.com/{env}/v1", "variables": gen.S{"env": gen.S{"default": "prod", "enum": gen.Arr("prod", "dev")}}})
+		dig(doc, "paths", "/pets")["servers"] = gen.Arr(gen.S{"url": "https://alt.example.com/{v}", "variables": gen.S{"v": gen.S{"default": "v2"}}})
+		dig(doc, "paths", "/pets", "get")["servers"] = gen.Arr(gen.S{"url": "https://op.example.com", "description": "operation level"})
+		dig(doc, "components", "links", "Self")["server"] = gen.S{"url": "https://links.example.com/{l}", "variables": gen.S{"l": gen.S{"default": "x"}}}
+		dig(doc, "components", "responses", "Error", "content", "text/plain")["examples"] = gen.S{"remote": gen.S{"externalValue": "https://ex.example.com/oops.txt"}}
+		delete(dig(doc, "components", "responses", "Error", "content", "text/plain"), "example")
+		dig(doc, "components", "headers", "Shared")["example"] = gen.Arr("a", "b")
+		dig(doc, "components", "responses", "Error", "content")["application/octet-stream"] = gen.S{"example": "AAEC"}
+		dig(doc, "components", "callbacks", "Hook", "{$request.query.url}", "get")["operationId"] = "hookGet"
+	}
 	if variant == 1 {
 		// a leaner variant without servers/security, relative server, extensions everywhere
 		delete(doc, "servers")
@@ -210,6 +223,7 @@ func c04Walk(doc gen.S) []c04loc {
 				child(obj, m, "operation", path, nc, tmpl)
 			}
 		case "operation":
+			listOfK(obj, "servers", "server", path, nc, tmpl)
 			listOfK(obj, "parameters", "parameter", path, nc, tmpl)
 			child(obj, "requestBody", "requestBody", path, nc, tmpl)
 			mapOf(obj, "responses", "response", path, nc, tmpl)
@@ -445,6 +459,23 @@ func c04Rules() []c04rule {
 		l.obj["examples"] = gen.S{"bad": gen.S{"value": gen.S{"not": "a primitive"}}}
 		return true
 	}})
+	// a header is a parameter without name and location: its example is held to its schema, and example / examples exclude each other
+	rules = append(rules, c04rule{name: "example-violates-schema", kind: "header", disabled: "DisableExamplesValidation", apply: func(l c04loc) bool {
+		s, ok := l.obj["schema"].(gen.S)
+		if !ok || typeOf(s) == "" || typeOf(s) == "object" || s["$ref"] != nil {
+			return false
+		}
+		delete(l.obj, "examples")
+		l.obj["example"] = gen.S{"not": "what the schema says"}
+		return true
+	}})
+	add("example-and-examples", "header", func(l c04loc) bool {
+		if _, ok := l.obj["schema"].(gen.S); !ok {
+			return false
+		}
+		l.obj["example"], l.obj["examples"] = "a", gen.S{"e": gen.S{"value": "a"}}
+		return true
+	})
 	rules = append(rules, c04rule{name: "example-violates-schema", kind: "mediaType", disabled: "DisableExamplesValidation", apply: func(l c04loc) bool {
 		s, ok := l.obj["schema"].(gen.S)
 		if !ok || typeOf(s) != "string" {
@@ -723,7 +754,7 @@ func c04Validate(docJSON []byte, opts []openapi3.ValidationOption, unload bool) 
 }
 
 func c04Bases(c *core.Ctx) []gen.S {
-	bases := []gen.S{c04Base(0), c04Base(1)}
+	bases := []gen.S{c04Base(0), c04Base(1), c04Base(2)}
 	// derived conforming documents: delete one optional subtree at a time
 	if c.Thorough() {
 		for _, drop := range [][]string{{"tags"}, {"externalDocs"}, {"components", "securitySchemes", "basic"}, {"paths", "/owners/{ownerId}/pets/{petId}"}, {"components", "securitySchemes", "oidc"}, {"info", "contact"}} {
@@ -854,6 +885,23 @@ func c04DocRulesBase() []c04docRule {
 		}},
 		{c04rule{name: "duplicate-operationId(same path item)"}, func(d gen.S) bool {
 			dig(d, "paths", "/pets", "post")["operationId"] = "listPets"
+			return true
+		}},
+		{c04rule{name: "duplicate-operationId(callback of a component)"}, func(d gen.S) bool {
+			dig(d, "components", "callbacks", "Hook", "{$request.query.url}", "get")["operationId"] = "listPets"
+			return true
+		}},
+		{c04rule{name: "duplicate-operationId(callback of an operation)"}, func(d gen.S) bool {
+			dig(d, "paths", "/pets", "post")["callbacks"] = gen.S{"done": gen.S{"{$request.body#/url}": gen.S{"post": gen.S{"operationId": "getPet", "responses": gen.S{"200": gen.S{"description": "ok"}}}}}}
+			return true
+		}},
+		// a field next to $ref that is not an extension, below the top of a component schema
+		{c04rule{name: "non-extension-sibling-of-ref(nested schema)", disabled: "AllowExtraSiblingFields(bogusField)"}, func(d gen.S) bool {
+			dig(d, "components", "schemas", "Pet", "properties")["sibling"] = gen.S{"$ref": "#/components/schemas/Owner", "bogusField": "x"}
+			return true
+		}},
+		{c04rule{name: "non-extension-sibling-of-ref(component schema)", disabled: "AllowExtraSiblingFields(bogusField)"}, func(d gen.S) bool {
+			dig(d, "components", "schemas")["Alias"] = gen.S{"$ref": "#/components/schemas/Owner", "bogusField": "x"}
 			return true
 		}},
 		{c04rule{name: "path-without-leading-slash"}, func(d gen.S) bool {
